@@ -126,7 +126,7 @@ func flushStats(w *vf.Worker, prefix string, st *orderStats) {
 	w.Count(prefix+"pairs_strict", st.strict)
 	w.Count(prefix+"pairs_tied", st.ties)
 	if st.tieReordered != 0 {
-		w.Count(prefix+"tied_groups_emitted_against_first_appearance(informational)", st.tieReordered)
+		w.Count(prefix+"tied_groups_emitted_against_first_appearance", st.tieReordered)
 	}
 }
 
@@ -150,7 +150,7 @@ func run(c *vf.Ctx) {
 	c.Rule = "every list of records (length <= L) over a key alphabet x every flag sequence (all 15 spellings for one key, all 8^2 / 8^3 comparator-kind combinations for two / three keys), plus rotation/reversal/interleave permutations of 13..64-group ladders, every array/map (length <= L) over a value alphabet x every flag string / comparator function for the DSL functions, every record shape for sort-within-records, every value list x -n/-a/--min for top, and all ordered triples of a value grid for comparator totality. A case is non-trivial when the documentation determines a strict order for at least one pair of its groups/elements (so that a wrong order is observable); distinct_nontrivial counts such cases (cases are distinct by construction)"
 	c.Assume("sort -b (which rewrites records by design) is checked through the command line only: expected records are the inputs with their sort fields moved to the start; field names are plain ASCII without separators")
 	c.Assume("relative order of booleans, empty values and strings among each other under numeric collation is not asserted (usage says 'nulls sort last', the implementation puts empties before strings; the property only places numbers first); strings among themselves are asserted lexical")
-	c.Assume("order among groups whose keys compare equal but differ in text (1, 1.0, 0x1) is not asserted (sort.Slice is unstable above 12 elements); how often first-appearance order is not kept is reported as an informational counter")
+	c.Assume("groups whose keys compare equal but differ in text (1, 1.0, 0x1; abc, Abc under -c) must come out in order of first appearance (usage: 'the sort is stable: records that compare equal will sort in the order they were encountered'); full record-level stability across such groups (1, 1.0, 1 -> 1, 1.0, 1) is NOT asserted, since the property keeps records of identical key text contiguous; no stability is asserted for the DSL sort functions or top (not documented)")
 	c.Assume("natural collation is asserted only where Wikipedia's definition and facette/natsort (both cited by sorting.md) agree: empty strings, digit runs equal in value but not in text, and prefix runs followed by a non-smaller digit are undetermined")
 	c.Assume("the DSL functions sort_by_key and sort_by_value named by the property do not exist in this tree (`mlr help function sort_by_key`: not found); their role is covered by sort(map) / sort(map, \"v...\") and by user comparator functions on keys / values")
 	c.Assume("user comparator functions are exercised with `a <=> b` / `b <=> a` only on homogeneous arrays (all numbers or all non-empty strings) and with a text-length comparator (strlen(string(x))) on all arrays, where their meaning is documented; on mixed arrays only the permutation predicate is asserted")
